@@ -3,6 +3,7 @@ package interp
 import (
 	"fmt"
 	"go/types"
+	"os"
 	"sort"
 	"sync"
 	"time"
@@ -127,6 +128,7 @@ func RunPath(w *World, fn *ssa.Function, prefix []int, opts *Options, sess *smt.
 	sess.Stats = smt.Stats{}
 	p := &pathState{i: i, prefix: prefix, sess: sess, res: res, opts: opts, inputSeen: map[string]bool{}, gomaxprocs: 8}
 	i.path = p
+	p.wantWitness = len(witness) > 0 && witness[0]
 	s := newScheduler(i)
 	i.sched = s
 	g0 := s.spawn(i, fn, nil, fn.Pos())
@@ -170,6 +172,11 @@ func RunPath(w *World, fn *ssa.Function, prefix []int, opts *Options, sess *smt.
 			p.finish()
 		}()
 	}
+	if res.Outcome == "ok" && !p.lazy {
+		for _, r := range res.Reached {
+			opts.ReachSeen.Store(r, true)
+		}
+	}
 	if res.Outcome == "ok" && len(witness) > 0 && witness[0] && res.Asserts > 0 {
 		if sess.Check() == smt.Sat {
 			res.Witness = &Witness{Inputs: p.model(), Choices: copyChoices(res.Choices), Decisions: res.Decisions}
@@ -202,6 +209,8 @@ type Summary struct {
 	WallS       float64
 	MaxPaths    bool
 	Witnesses   []*Witness
+	FeasUnknown int
+	FeasSkipped int
 }
 
 // Explore runs all paths of fn with a pool of workers.
@@ -212,6 +221,7 @@ func Explore(w *World, fn *ssa.Function, opts *Options, workers, maxPaths int, t
 	cond := sync.NewCond(&mu)
 	work := [][]int{nil}
 	active := 0
+	lastProgress := time.Now()
 	pendingW := 0
 	stop := false
 	var wg sync.WaitGroup
@@ -260,7 +270,15 @@ func Explore(w *World, fn *ssa.Function, opts *Options, workers, maxPaths int, t
 				if res.Witness != nil && len(sum.Witnesses) < opts.Witnesses {
 					sum.Witnesses = append(sum.Witnesses, res.Witness)
 				}
+				sum.FeasUnknown += res.FeasUnknown
+				if res.FeasSkipped {
+					sum.FeasSkipped++
+				}
 				sum.Paths++
+				if time.Since(lastProgress) > 30*time.Second {
+					lastProgress = time.Now()
+					fmt.Fprintf(os.Stderr, "  ... %s: %d paths %v, %d queued, %.0fs\n", fn.Name(), sum.Paths, sum.ByOutcome, len(work), time.Since(t0).Seconds())
+				}
 				sum.ByOutcome[res.Outcome]++
 				sum.Decisions += len(res.Decisions)
 				sum.Steps += res.Steps
